@@ -15,7 +15,7 @@ LEVEL = 'model_checking'
 FUNCTIONS = ['mofun.detect_bonds.detect_bonds', 'mofun.detect_bonds.max_bond_length', 'mofun.mofun.uc_neighbor_offsets']
 BOUNDS = {'quick': '12 element pairs (metal/non-metal combinations, both orders), 13 directions (axes, face and body diagonals), separation d symbolic '
                    'in (0.2, cutoff+0.6), one symbolic translation axis per instance with concrete shifts on the others placing the pair at faces, '
-                   'edges and corners; pairs bonded through two images at once on narrow cells; histories detect -> replicate/assign cell -> detect on one object; 2 orthorhombic + 3 triclinic cells and no cell; a third atom as bystander; both atom orders',
+                   'edges and corners; pairs bonded through two images at once on narrow cells; corner crossings in both index orders; left-handed cells; a cell of integer dtype; histories detect -> replicate/assign cell -> detect on one object; 2 orthorhombic + 3 triclinic cells and no cell; a third atom as bystander; both atom orders',
           'thorough': 'as quick (incl. two-image pairs on narrow cells and detect / change cell / detect histories) with all 13 directions x 3 axes on 5 cells, two symbolic translation axes'}
 OUTSIDE = ['two fully symbolic atom positions (nonlinear real arithmetic in 6 variables: z3 answers unknown)', 'cells narrower than twice the cutoff',
            'IEEE rounding at the cutoff (1e-9 slack)']
